@@ -65,8 +65,14 @@ func (n *UnaryExpressionNode) String() string {
 	// into another token eg. `- -a`, `< ::Foo`, `< -1`
 	switch n.Op.Type {
 	case token.PLUS, token.MINUS, token.BANG, token.TILDE:
-		if _, ok := n.Right.(*UnaryExpressionNode); ok {
+		switch n.Right.(type) {
+		case *UnaryExpressionNode:
 			buff.WriteRune(' ')
+		case *HashMapLiteralNode:
+			if n.Op.Type == token.BANG {
+				// `!{` begins a short unquote
+				buff.WriteRune(' ')
+			}
 		}
 	default:
 		buff.WriteRune(' ')
